@@ -10,6 +10,7 @@ is written raw by the code).
 import Comrak.Lemmas.HtmlSafeTree
 import Comrak.Lemmas.UrlSafe
 import Comrak.Props.C19
+import Comrak.Lemmas.HtmlLexSafe
 namespace Comrak.C02
 open Comrak Bytes
 
@@ -89,10 +90,48 @@ theorem allowed_value_cannot_break_out (ps : List APart) (h : ps.all partOk = tr
       have := h.1 c hm
       rcases hc with rfl | rfl | rfl <;> simp at this
 
+/-! ### From tokens to bytes -/
+
+/-- A browser that entity-decodes the written destination sees a dangerous scheme exactly when the
+    document's URL had one (`escape_href` followed by entity decoding neither hides nor creates one). -/
+theorem dangerous_invariant_under_escapeHref_decoded (u : Bytes) :
+    dangerousUrl (entDecode (escapeHref u)) = dangerousUrl u :=
+  dangerousUrl_entDecode_escapeHref u
+
+/-- The spelled value of an allowed attribute is in the safe value language of the byte oracle:
+    no raw `"`, `<`, `>`, every `&` begins one of the five entities comrak writes. -/
+theorem allowed_value_is_valueSafe (ps : List APart) (h : ps.all partOk = true) : valueSafe (spellVal ps) = true :=
+  valueSafe_spellVal ps h
+
+/-- In safe mode no `href`/`src` value written by the renderer decodes to a dangerous URL
+    (links, images, wikilinks, footnote links, heading anchors) - all trees. -/
+theorem html_destinations_safe (o : HtmlOpts) (hu : o.unsafe_ = false) (nt : NormTable) (t : Tree) :
+    (renderToks o nt t).all destOk = true :=
+  renderToks_dest o hu nt t
+
+/-- The byte oracle accepts the spelling of any allowed, destination-safe token list. -/
+theorem safe_tokens_safe_bytes (ts : List Tok) (ha : ts.all allowedTok = true) (hd : ts.all destOk = true) :
+    safeBytes (spell ts) = .ok () :=
+  safeBytes_spell ts ha hd
+
+/-- **C02 on bytes.** Under the hypotheses of `html_safe`, the *bytes* of the rendered document are
+    accepted by the run-time oracle `safeBytes`: they lex as complete tags, comments and text; every
+    tag and attribute name is in the fixed vocabulary; every attribute value and every text run has
+    no raw `"`, `<`, `>` and no `&` outside the five entities; the only comment is the omission
+    placeholder; no `href`/`src` value entity-decodes to a dangerous URL. -/
+theorem html_safe_bytes (o : HtmlOpts) (hu : o.unsafe_ = false)
+    (hp : ∀ p, o.headerIds = some p → litSafe p = true)
+    (nt : NormTable) (hn : NormSafe nt) (t : Tree) (ht : treeSafe t = true) :
+    safeBytes (renderHtml o nt t) = .ok () :=
+  safeBytes_spell _ (html_safe o hu hp nt hn t ht) (renderToks_dest o hu nt t)
+
 /-! Non-vacuity -/
 example : treeSafe (.node .document {} (.cons (.node (.heading 2 false) {} (.cons (.node (.text [0x3C]) {} .nil) .nil)) .nil)) = true := by
   decide
 example : NormSafe {} := normSafe_empty
 example : dangerousUrl [0x4A, 0x61, 0x76, 0x61, 0x53, 0x63, 0x72, 0x69, 0x70, 0x74, 0x3A, 0x78] = true := by decide
+
+example : (match safeBytes (renderHtml {} {} (.node .document {} (.cons (.node (.link [0x68, 0x3A, 0x26, 0x22] [0x3C]) {}
+    (.cons (.node (.text [0x3C, 0x26]) {} .nil) .nil)) .nil))) with | .ok _ => true | .error _ => false) = true := by decide
 
 end Comrak.C02
